@@ -81,8 +81,13 @@ def parse_phys(data, tif):
         prlen, attr = struct.unpack_from('>HH', data, pos)
         rn, fn, ck = (attr >> 9) & 1, (attr >> 10) & 1, (attr >> 12) & 1
         n = prlen - 4 - 2 * rn - 2 * fn - 2 * ck
+        tail = data[pos + 4 + n:pos + prlen]
+        vals, o = {}, 0
+        for key, has in (('rnval', rn), ('fnval', fn), ('ckval', ck)):      # trailer order: record number, file number, checksum
+            vals[key] = struct.unpack_from('>H', tail, o)[0] if has and o + 2 <= len(tail) else -1
+            o += 2 if has else 0
         prs.append(dict(hdrpos=pos, prlen=prlen, succ=bool(attr & 1), pred=bool(attr & 2), rn=rn, fn=fn, ck=ck, n=n,
-                        tif=marker or [], payload=data[pos + 4:pos + 4 + n], attr=attr))
+                        tif=marker or [], payload=data[pos + 4:pos + 4 + n], attr=attr, **vals))
         pos += prlen
     return prs, eofs
 
